@@ -3,6 +3,7 @@ package rules
 import (
 	"fmt"
 	"go/token"
+	"go/types"
 	"strings"
 
 	"golang.org/x/tools/go/ssa"
@@ -27,7 +28,68 @@ func init() {
 	})
 }
 
-const measuredT = "service/metrics.measuredConn"
+// measuredModel: the measuring wrapper found by shape — the struct in service/metrics that holds a transport.StreamConn and two
+// *int64 counters; which counter counts writes / reads is given by MeasureConn's parameter order (conn, sent, received).
+type measuredModel struct {
+	T, conn, wr, rd string
+	mc              *ssa.Function
+}
+
+func findMeasured(c *Ctx, rule string) *measuredModel {
+	p := c.P
+	pkg := p.AllPkgs[eng.Mod+"/service/metrics"]
+	mc := p.Fn("service/metrics.MeasureConn")
+	if pkg == nil || pkg.Types == nil || mc == nil {
+		c.Undecided(rule, "anchor:MeasureConn", "-", "metrics.MeasureConn not found")
+		return nil
+	}
+	var out *measuredModel
+	sc := pkg.Types.Scope()
+	for _, name := range sc.Names() {
+		tn, ok := sc.Lookup(name).(*types.TypeName)
+		if !ok {
+			continue
+		}
+		st, ok := tn.Type().Underlying().(*types.Struct)
+		if !ok {
+			continue
+		}
+		m := &measuredModel{T: "service/metrics." + name, mc: mc}
+		var ptrs []string
+		for i := 0; i < st.NumFields(); i++ {
+			f := st.Field(i)
+			switch eng.Short(f.Type().String()) {
+			case "sdk/transport.StreamConn":
+				m.conn = f.Name()
+			case "*int64":
+				ptrs = append(ptrs, f.Name())
+			}
+		}
+		if m.conn == "" || len(ptrs) != 2 {
+			continue
+		}
+		for _, fld := range ptrs {
+			for _, fs := range p.FieldStores(m.T, fld) {
+				if fs.Fn != mc {
+					continue
+				}
+				if g, _ := p.AllFrom(fs.Val, eng.Plain, func(v ssa.Value) bool { return eng.IsParam(v, mc, 1) }); g {
+					m.wr = fld
+				}
+				if g, _ := p.AllFrom(fs.Val, eng.Plain, func(v ssa.Value) bool { return eng.IsParam(v, mc, 2) }); g {
+					m.rd = fld
+				}
+			}
+		}
+		if m.wr != "" && m.rd != "" && m.wr != m.rd {
+			out = m
+		}
+	}
+	if out == nil {
+		c.Check(rule, "MeasureConn:counters-wired", p.Pos(mc.Pos()), false, "MeasureConn does not build a wrapper whose two counters are its (sent → writes, received → reads) parameters")
+	}
+	return out
+}
 
 // relay is a function that runs two copy directions: one in a goroutine it starts, one synchronously.
 type relay struct {
@@ -302,8 +364,13 @@ func ruleClearDeadline(c *Ctx) {
 // PASSTHRU (shared by C02 and C15): wrapper transparency of the measuring connection, over each method's helper region.
 func rulePassthru(c *Ctx, rule string) {
 	p := c.P
-	want := map[string]string{"Read": "readCount", "WriteTo": "readCount", "Write": "writeCount", "ReadFrom": "writeCount"}
-	// counter fields by role: the two *int64 fields; which is which is given by MeasureConn's parameter order (sent, received)
+	mm := findMeasured(c, rule)
+	if mm == nil {
+		return
+	}
+	measuredT := mm.T
+	want := map[string]string{"Read": mm.rd, "WriteTo": mm.rd, "Write": mm.wr, "ReadFrom": mm.wr}
+	c.Check(rule, short(mm.mc)+":counters-wired", p.Pos(mm.mc.Pos()), true, "sent→"+mm.wr+", received→"+mm.rd+"||")
 	n := 0
 	// every delegated call of the four methods (used to accept shared counting helpers)
 	var allDelegates []*ssa.Call
@@ -314,7 +381,7 @@ func rulePassthru(c *Ctx, rule string) {
 				continue
 			}
 			emb := func(v ssa.Value) bool {
-				return p.AnyFrom(v, deepF, func(x ssa.Value) bool { return eng.IsFieldLoad(x, measuredT, "StreamConn") })
+				return p.AnyFrom(v, deepF, func(x ssa.Value) bool { return eng.IsFieldLoad(x, measuredT, mm.conn) })
 			}
 			if _, isM := want[eng.MethodName(&call.Call)]; isM && emb(eng.Receiver(&call.Call)) {
 				allDelegates = append(allDelegates, call)
@@ -336,7 +403,7 @@ func rulePassthru(c *Ctx, rule string) {
 		key := short(f)
 		reg := c.NewRegion(f, 3, func(h *ssa.Function) bool { return eng.PkgPathOf(h) != eng.Mod+"/service/metrics" })
 		isEmbedded := func(v ssa.Value) bool {
-			return p.AnyFrom(v, deepF, func(x ssa.Value) bool { return eng.IsFieldLoad(x, measuredT, "StreamConn") })
+			return p.AnyFrom(v, deepF, func(x ssa.Value) bool { return eng.IsFieldLoad(x, measuredT, mm.conn) })
 		}
 		var delegates []*ssa.Call
 		for _, cl := range reg.Calls() {
@@ -406,7 +473,7 @@ func rulePassthru(c *Ctx, rule string) {
 			if !ok {
 				return
 			}
-			if !ptrIs(st.Addr, "readCount") && !ptrIs(st.Addr, "writeCount") {
+			if !ptrIs(st.Addr, mm.rd) && !ptrIs(st.Addr, mm.wr) {
 				if fa, isFA := st.Addr.(*ssa.FieldAddr); isFA {
 					if t, _, _, ok := eng.FieldOf(fa); ok && t == measuredT {
 						c.CheckAt(rule, key+":no-field-writes", st, false, "the wrapper method modifies the wrapper's fields")
@@ -421,7 +488,7 @@ func rulePassthru(c *Ctx, rule string) {
 			var bad []ssa.Value
 			if ok && bo.Op == token.ADD {
 				for _, pair := range [][2]ssa.Value{{bo.X, bo.Y}, {bo.Y, bo.X}} {
-					if u, isU := pair[0].(*ssa.UnOp); isU && u.Op == token.MUL && (ptrIs(u.X, "readCount") || ptrIs(u.X, "writeCount")) {
+					if u, isU := pair[0].(*ssa.UnOp); isU && u.Op == token.MUL && (ptrIs(u.X, mm.rd) || ptrIs(u.X, mm.wr)) {
 						good, bad = p.AllFrom(pair[1], deepF, func(v ssa.Value) bool { return inCalls(v, allDelegates, 0) })
 						// and this method's own delegate is among the sources
 						if good && !p.AnyFrom(pair[1], deepF, fromD(0)) {
@@ -445,23 +512,6 @@ func rulePassthru(c *Ctx, rule string) {
 		c.Check(rule, key+":one-counter-update-per-call", p.Pos(f.Pos()), mn2 == 1 && mx2 == 1, fmt.Sprintf("%d..%d counter updates per call (expected exactly 1)", mn2, mx2))
 	}
 	c.Floor(rule, "measured-connection methods", n, 4)
-	// MeasureConn wires (bytesSent → writeCount, bytesReceived → readCount)
-	if mc := p.Fn("service/metrics.MeasureConn"); mc != nil {
-		for _, fld := range []struct {
-			name string
-			idx  int
-		}{{"writeCount", 1}, {"readCount", 2}} {
-			for _, st := range p.FieldStores(measuredT, fld.name) {
-				if st.Fn != mc {
-					continue
-				}
-				g, _ := p.AllFrom(st.Val, eng.Plain, func(v ssa.Value) bool { return eng.IsParam(v, mc, fld.idx) })
-				c.CheckAt(rule, short(mc)+":"+fld.name, st.Ins, g, fld.name+" is not wired to MeasureConn's matching parameter (sent→writes, received→reads)")
-			}
-		}
-	} else {
-		c.Undecided(rule, "anchor:MeasureConn", "-", "metrics.MeasureConn not found")
-	}
 }
 
 // ---- C15 ----
